@@ -323,6 +323,7 @@ func worker(c *core.Ctx, args []string) {
 	e := &sched.Explorer{Sc: sc, Bound: bound, Shard: shard, NShards: n, Deadline: c.Deadline}
 	st := e.Explore()
 	c.Add("schedules", st.Executions)
+	c.Add("replay_divergences", st.Divergences)
 	c.Add("schedules:"+sc.Name, st.Executions)
 	for o := range st.Outcomes {
 		c.Distinct("outcomes:"+sc.Name, o)
